@@ -105,7 +105,7 @@ Metric(obs, unit, orig, dims, flags) ==
 StringCall == [NoCall EXCEPT !.kind = "string"]
 ErrorCall(e) == [NoCall EXCEPT !.kind = "error", !.err = e]
 
-AllBases == {"str", "u64", "f64", "dur", "distu", "distdur", "mean", "rich", "err", "empty", "bad"}
+AllBases == {"str", "u64", "f64", "dur", "distu", "distdur", "mean", "rich", "err", "empty", "bad", "zero", "zeron"}
 
 \* what the plain value writes, and the unit its type promises
 BaseVal(b) ==
@@ -126,6 +126,11 @@ BaseVal(b) ==
       [] b = "empty"   -> [call |-> NoCall, prom |-> "None"]
       \* promises Seconds, writes Bytes
       [] b = "bad"     -> [call |-> Metric(<<Ob("U", 1, 0, 0)>>, "Byte", "Byte", <<>>, {}), prom |-> "Second"]
+      \* a metric CALL with an empty observation list (ValueWriter::metric: legal, still reported to the
+      \* format - e.g. a closed histogram that saw no sample): once with unit, own dimension and flag so
+      \* that their loss is visible, once bare.  Not to be confused with "empty" (no call at all).
+      [] b = "zero"    -> [call |-> Metric(<<>>, "Second", "Second", <<"z0">>, {"C"}), prom |-> "Second"]
+      [] b = "zeron"   -> [call |-> Metric(<<>>, "None", "None", <<>>, {}), prom |-> "None"]
 
 -----------------------------------------------------------------------------
 (* Value wrappers: [w, ds, f, from, to] *)
@@ -212,7 +217,7 @@ ValItem(name, call) == Item("val", "", name, call)
 
 \* the entry under test: timestamp, config, then one field per base value (field name = base id),
 \* a second config in the middle; sample group of two elements
-BaseSeq == <<"str", "u64", "f64", "dur", "distu", "distdur", "mean", "rich", "err", "empty", "bad">>
+BaseSeq == <<"str", "u64", "f64", "dur", "distu", "distdur", "mean", "rich", "err", "empty", "bad", "zero", "zeron">>
 EntryE ==
     [items |-> <<TsItem("T1"), CfgItem("c1")>>
                \o [i \in 1..5 |-> ValItem(BaseSeq[i], BaseVal(BaseSeq[i]).call)]
